@@ -53,6 +53,7 @@ var owners = map[string][]string{
 	"count":       {"C15", "C04"},
 	"locks":       {"C18", "C16"},
 	"junk":        {"C19", "C05"},
+	"challenge":   {"C03"},
 }
 
 // methodOwners: a wrong answer (class / pinned code) to a request of this method also
@@ -70,6 +71,12 @@ var methodOwners = map[string][]string{
 // OwnedBy reports whether mismatch m, found at action a, contradicts property prop.
 func OwnedBy(m Mismatch, a map[string]any, prop string) bool {
 	if prop == "" || prop == "ALL" {
+		return true
+	}
+	if name, _ := a["a"].(string); name == "BadCred" && prop == "C03" {
+		return true // a request with defective credentials had an effect or a wrong answer
+	}
+	if m.Kind == "nonce" && prop == "C03" {
 		return true
 	}
 	for _, p := range owners[m.Kind] {
@@ -339,7 +346,17 @@ func CompareOut(exp []any, obs []Obs, pr Proj, w *World, a map[string]any) []Mis
 
 			continue
 		}
-		if ec := toInt(e["code"]); ec != 0 && ec != toInt(o["code"]) {
+		if toInt(e["code"]) == -1 { // a challenge: 401 or 438, with a nonce and this server's realm
+			if oc := toInt(o["code"]); oc != 401 && oc != 438 {
+				ms = append(ms, Mismatch{"resp.code", fmt.Sprintf("%v: spec 401/438 challenge, server %v", e["m"], o["code"])})
+			}
+			if n, _ := o["nonce"].(string); n == "" {
+				ms = append(ms, Mismatch{"challenge", "challenge without NONCE"})
+			}
+			if r, _ := o["realm"].(string); r != realm {
+				ms = append(ms, Mismatch{"challenge", fmt.Sprintf("challenge REALM %q", o["realm"])})
+			}
+		} else if ec := toInt(e["code"]); ec != 0 && ec != toInt(o["code"]) {
 			ms = append(ms, Mismatch{"resp.code", fmt.Sprintf("%v: spec %d, server %v", e["m"], ec, o["code"])})
 		}
 		if el, ok := e["life"]; ok && toInt(el) >= 0 {
